@@ -977,9 +977,11 @@ func (self *Assembler) _asm_OP_eface(_ *ir.Instr) {
 	self.Emit("LEAQ", jit.Ptr(_SP_p, 8), _CX) // LEAQ  8(SP.p), CX
 	self.Emit("MOVQ", _ST, _DI)               // MOVQ  ST, DI
 	self.Emit("MOVQ", _ARG_fv, _SI)           // MOVQ  fv, AX
-	self.call_encoder(_F_encodeTypedPointer)  // CALL  encodeTypedPointer
-	self.Emit("TESTQ", _ET, _ET)              // TESTQ ET, ET
-	self.Sjmp("JNZ", _LB_error)               // JNZ   _error
+	/* interface contents are not addressable */
+	self.Emit("BTRQ", jit.Imm(alg.BitPointerValue), _SI)
+	self.call_encoder(_F_encodeTypedPointer) // CALL  encodeTypedPointer
+	self.Emit("TESTQ", _ET, _ET)             // TESTQ ET, ET
+	self.Sjmp("JNZ", _LB_error)              // JNZ   _error
 	self.load_buffer_AX()
 }
 
@@ -990,9 +992,11 @@ func (self *Assembler) _asm_OP_iface(_ *ir.Instr) {
 	self.Emit("LEAQ", jit.Ptr(_SP_p, 8), _CX) // LEAQ  8(SP.p), CX
 	self.Emit("MOVQ", _ST, _DI)               // MOVQ  ST, DI
 	self.Emit("MOVQ", _ARG_fv, _SI)           // MOVQ  fv, AX
-	self.call_encoder(_F_encodeTypedPointer)  // CALL  encodeTypedPointer
-	self.Emit("TESTQ", _ET, _ET)              // TESTQ ET, ET
-	self.Sjmp("JNZ", _LB_error)               // JNZ   _error
+	/* interface contents are not addressable */
+	self.Emit("BTRQ", jit.Imm(alg.BitPointerValue), _SI)
+	self.call_encoder(_F_encodeTypedPointer) // CALL  encodeTypedPointer
+	self.Emit("TESTQ", _ET, _ET)             // TESTQ ET, ET
+	self.Sjmp("JNZ", _LB_error)              // JNZ   _error
 	self.load_buffer_AX()
 }
 
@@ -1054,6 +1058,8 @@ func (self *Assembler) _asm_OP_recurse(p *ir.Instr) {
 	self.Emit("MOVQ", _ARG_fv, _SI) // MOVQ  $fv, SI
 	if pv {
 		self.Emit("BTSQ", jit.Imm(alg.BitPointerValue), _SI) // BTSQ $1, SI
+	} else {
+		self.Emit("BTRQ", jit.Imm(alg.BitPointerValue), _SI) // BTRQ $1, SI
 	}
 
 	self.call_encoder(_F_encodeTypedPointer) // CALL  encodeTypedPointer
